@@ -1170,6 +1170,8 @@ Proof.
     + rewrite length_upd. auto.
   - (* add standard *)
     destruct (get_new s id) as [v|] eqn:Gn; [|simpl; ssplit; auto; discriminate].
+    match goal with |- context [if negb ?b then (s, fail_usage) else _] => destruct b end;
+      simpl negb; cbv iota; [|simpl; ssplit; auto; discriminate].
     pose proof (get_new_lt _ _ _ Gn) as Lt.
     set (c0 := vc (upd (st_news s) id None)).
     assert (R0 : RI (st_pt s) (fun x => c0 x + cnt (vn_params v) x)).
@@ -1479,9 +1481,10 @@ Proof.
   - unfold get_param. destruct (Z.ltb_spec h 0); try lia. simpl. rewrite <- En, S1. reflexivity.
   - intros ms. eexists. unfold step, step_gen. simpl st_freed. rewrite Fr.
     unfold get_new. simpl st_news. unfold get_new in Gn. rewrite Gn.
-    simpl vn_get_params. destruct (Z.leb_spec 0 h); try lia. rewrite <- En.
     assert (Hm : in_nat n (vn_params v) = true).
     { unfold in_nat. apply existsb_exists. exists n. split; auto. apply Nat.eqb_refl. }
+    simpl vn_get_params. simpl forallb. simpl vn_check_param.
+    destruct (Z.leb_spec 0 h); try lia. rewrite <- En.
     simpl. rewrite Hm. simpl. split; reflexivity.
 Qed.
 
@@ -1660,6 +1663,8 @@ Proof.
     match goal with |- context [if ?b then _ else _] => destruct b end; apply keeps_refl.
   - (* add standard *)
     destruct (get_new s id) as [v|] eqn:Gn; [|apply keeps_refl].
+    match goal with |- context [if negb ?b then (s, fail_usage) else _] => destruct b end;
+      simpl negb; cbv iota; [|apply keeps_refl].
     pose proof (get_new_lt _ _ _ Gn) as Lt.
     assert (R0 : RI (st_pt s) (fun x => vc (upd (st_news s) id None) x + cnt (vn_params v) x)).
     { eapply RI_ext; [|exact R]. intros x.
@@ -1718,3 +1723,18 @@ Proof.
     intros f. rewrite B. unfold get_value, get_param.
     destruct (Z.ltb_spec (Z.of_nat h) 0); try lia. rewrite Nat2Z.id, S1, S, D. simpl. reflexivity.
 Qed.
+
+(* fix D17: a standard refused for one of its parameters registers nothing *)
+Lemma rejected_standard_unchanged_l : forall s id v hs ms,
+  st_freed s = false -> get_new s id = Some v ->
+  forallb (vn_check_param (S (length (pt_slots (st_pt s)))) (st_pt s) v) hs = false ->
+  step s (OAddStd id hs ms) = (s, fail_usage).
+Proof.
+  intros s id v hs ms Fr G H. unfold step, step_gen. rewrite Fr, G, H. reflexivity.
+Qed.
+
+Example rejected_standard_example :
+  let s := run_state held_script in
+  exists v, get_new s 0 = Some v /\
+  forallb (vn_check_param (S (length (pt_slots (st_pt s)))) (st_pt s) v) [3%Z; 9%Z] = false.
+Proof. eexists. split; [vm_compute; reflexivity|]. vm_compute. reflexivity. Qed.
